@@ -105,6 +105,7 @@ Theorem C02_phys_write_file : forall lg ft (s : physfs) hs p data, pgood s ->
 Proof. exact prefine_write_file. Qed.
 
 Theorem C02_mem_write_file : forall lg ft (s : mstate) hs p data, wf s ->
+  (Z.of_nat (length data) <= i64_max)%Z ->
   exists s' hs' r, run bhandler (write_file mv p data) (mstore s hs lg ft) = (mstore s' hs' lg ft, r) /\
     abs s' = fst (spec_write_file (abs s) p data) /\
     class_of r = snd (spec_write_file (abs s) p data) /\ wf s'.
